@@ -435,6 +435,20 @@ pub fn c07(tier: Tier) -> i32 {
     for (sig, (i, what)) in &best {
         rep.violation(format!("catchup:{}", sig), format!("[scenario {:?}] {}", grid[*i], what), json!({"engine":"sim","check":"c07","scenario":format!("{:?}", grid[*i]),"params":json!({"j":grid[*i].j,"start_round":grid[*i].start_round,"len":grid[*i].len,"cut":grid[*i].cut,"mute":grid[*i].mute_first_target})}));
     }
+    // the sync path on one node, exhaustively: every chain shape x learning order (parking,
+    // resumption, no panic), and sync requests for every block in every explored state (the helper
+    // re-sends exactly the requested block)
+    crate::proto::chain::run(&mut rep, "C07", tier);
+    for n in tier.pick(vec![0usize], vec![0usize, 2]) {
+        let mut sc = crate::proto::solo::default_cfg(n, 3, tier);
+        sc.with_votes = false;
+        sc.with_timeouts = false;
+        sc.stale_variants = false;
+        sc.with_invalid = false;
+        sc.with_sync_requests = true;
+        sc.max_depth = tier.pick(3, 4);
+        crate::proto::solo::run(&mut rep, "C07", "blocks+sync-requests", sc);
+    }
     println!("  sim/catch-up: scenarios={} distinct outcomes={} scenarios with sync requests={} with helper replies={}", grid.len(), outcomes.len(), with_sync, with_replies);
     rep.set("evaluations", json!(grid.len()));
     rep.set("distinct_nontrivial", json!(outcomes.len()));
@@ -444,7 +458,7 @@ pub fn c07(tier: Tier) -> i32 {
     rep.set("rule", json!("grid: recovering node x isolation start (first proposal of round s seen) x gap length in rounds of the others' progress (gaps with and without view changes) x isolation kind (frames held and released; links cut with connects refused, frames lost) x one peer mute towards the recovering node's sync requests (so for blocks it authored only the retry broadcast can succeed). 4 real consensus nodes, one deterministic execution per grid point, 40 virtual seconds after reconnection. Oracle: the recovering node's committed round is within 4 of the others', all delivered sequences are parent chains and prefixes of one another, every block re-sent by a non-author was requested from that node by that destination with exactly that digest and verifies, no panic. distinct_nontrivial = distinct (committed rounds, number of sync requests, number of helper replies)."));
     rep.sample(json!({"scenario": format!("{:?}", grid[grid.len() / 2]), "outcome": results[grid.len() / 2].1}));
     rep.sample(json!({"scenario": format!("{:?}", grid[grid.len() - 1]), "outcome": results[grid.len() - 1].1}));
-    rep.assume("one canonical schedule per scenario (fixed link delay); interleavings of the sync path on a single node are covered exhaustively by the chain engine (C02/C05)");
+    rep.assume("one canonical schedule per sim scenario (fixed link delay); the interleavings of the sync path on a single node (child before parent, duplicates, every learning order, sync requests in every state) are covered exhaustively within their bounds by the chain and solo engines, whose counts are reported under states / transitions");
     rep.finish()
 }
 
